@@ -151,6 +151,12 @@ func constLiterals(src string) map[string]string {
 						}
 					}
 					if val == "" {
+						// an initialiser that is itself a constant expression is folded to a literal first
+						if text, ok := constText(v, out); ok {
+							val = evalToLiteral(text)
+						}
+					}
+					if val == "" {
 						continue
 					}
 					if _, dup := out[id.Name]; dup {
@@ -203,6 +209,44 @@ func constLiterals(src string) map[string]string {
 var c01pureBuiltins = map[string]bool{"contains": true, "bool": true, "int": true, "uint": true, "char": true, "float": true, "string": true, "chars": true,
 	"len": true, "typeName": true, "bytes": true, "error": true, "sprintf": true, "isError": true, "isInt": true, "isUint": true, "isFloat": true, "isChar": true,
 	"isBool": true, "isString": true, "isBytes": true, "isMap": true, "isArray": true, "isUndefined": true, "isIterable": true}
+
+// evalToLiteral evaluates a constant expression text alone and renders the resulting scalar as a literal ("" if not a scalar / error).
+func evalToLiteral(text string) string {
+	cr := safeCompile([]byte("return "+text), ugo.CompilerOptions{NoOptimize: true})
+	if cr.err != nil || cr.panicv != "" {
+		return ""
+	}
+	var v ugo.Object
+	func() {
+		defer func() { _ = recover() }()
+		v, _ = ugo.NewVM(cr.bc).SetRecover(true).Run(nil)
+	}()
+	switch o := v.(type) {
+	case ugo.Int:
+		return fmt.Sprintf("(%d)", int64(o))
+	case ugo.Uint:
+		return fmt.Sprintf("%du", uint64(o))
+	case ugo.Bool:
+		return fmt.Sprint(bool(o))
+	case ugo.String:
+		return fmt.Sprintf("%q", string(o))
+	case ugo.Char:
+		return fmt.Sprintf("char(%d)", int32(o))
+	case ugo.Float:
+		f := float64(o)
+		if f != f || f > 1e300 || f < -1e300 {
+			return ""
+		}
+		s := fmt.Sprintf("%v", f)
+		if !strings.ContainsAny(s, ".e") {
+			s += ".0"
+		}
+		return "(" + s + ")"
+	case *ugo.UndefinedType:
+		return "undefined"
+	}
+	return ""
+}
 
 // constText renders x if it is a constant expression in the optimizer's sense: literals,
 // literal-valued consts, operators, calls of side-effect-free builtins or of constant (non-callable)
